@@ -20,6 +20,10 @@ CLAIMED = {
          "exploration",
          "For KZG-family, PST13, IPA and Hyrax sessions: 0 bytes drawn and no blinding without a hiding bound; >= (h+2) field elements per blinded commitment (twice for degree-bounded Marlin), blinding polynomial of degree exactly h+1; identical streams give byte-identical commitments and proofs, different streams give different hiding commitments and blinding fields; 16 repeated commitments pairwise distinct; no RNG => Err/abort.",
          "3.7", "Hyrax under `parallel` draws its commit blinders from the hooked thread RNG, not the caller's; the non-hiding commitment used as reference is the library's own"),
+ "C10": ("refinement check against executable reference verifiers: for each scheme a small naive re-implementation of the published relation with the same challenge derivation (replayed on a fork of the traced sponge) is compared, operation by operation, with the library verifier over the single-fault neighbourhood of honest transcripts (value, each point coordinate, each commitment element, degree-bound label, each proof element, each verifier-key element replaced in flight by a fresh valid element)",
+         "exploration",
+         "library_decision == reference_decision on every transcript of the neighbourhood and on the honest transcript (which the reference must accept), for check and (as AND over point labels) batch_check, all eight trait schemes; equal end sponge states on accepted transcripts.",
+         "3.8", "the reference shares ark-ec/ark-ff, Poseidon, and LinearEncode::{encode,tensor} / Path::verify with the library; only same-shape replacements are in the property's domain"),
  "C11": ("history simulation on a traced Fiat-Shamir sponge: sequences of up to 6 open/batch/LC operations on one shared sponge with crash-restart of either party, lock-step invariants after every prefix, and proofs re-delivered at other positions / against diverged or stale sponge states",
          "exploration",
          "After every prefix of the history the check accepts and prover and verifier sponges are byte-identical (state, mode, trace shape, next squeeze); a claim verified against any other transcript state (moved, stale snapshot, dropped/altered/duplicated prior absorb) is not accepted unless all its polynomials are constant.",
